@@ -210,3 +210,67 @@ def run(ctx, F, rule="E-FFI"):
         ctx.ob(rule + ".ops", "%s.ops:%s" % (rule, name), len(gets) == nops,
                "util::%s (%s) validates %d operand(s) through get(), expected %d: an invalid (out-of-memory) handle must "
                "yield an invalid handle, not a crash" % (name, F.where(fid), len(gets), nops))
+
+
+# ---- fresh handles ------------------------------------------------------------------------------------------------
+HANDLE_TYPES = re.compile(r"^oxidd_ffi_c::\w+::(bdd_t|bcdd_t|zbdd_t|\w+_manager_t)$|^oxidd_ffi_c::\w+::\w+_t$")
+
+
+def check_fresh_handles(ctx, F, rule="E-FFI.fresh"):
+    """An exported function that returns a function / manager handle returns a handle that owns its own reference:
+    the caller unrefs every returned handle exactly once.  From MIR: the return place is never a copy of a handle
+    parameter, except in the `*_ref` functions, where a clone of the underlying reference is forgotten (= the
+    reference count is incremented) on the way."""
+    n = 0
+    for fid, r in sorted(F.fns.items()):
+        if not (fid.startswith("oxidd_ffi_c::") and r.get("no_mangle") and fid in F.mir):
+            continue
+        out = r.get("output") or ""
+        if not HANDLE_TYPES.match(out) or out not in (r.get("inputs") or []):
+            continue
+        m = F.mir[fid]
+        B = cfg.Body(m)
+        argc = len(r.get("inputs") or [])
+        params = {i for i in range(1, argc + 1) if (m["locals"][i].get("ty") or "") == out}
+        # locals that hold a plain copy of such a parameter
+        copies = set(params)
+        ch = True
+        while ch:
+            ch = False
+            for bi in B.reach:
+                for st in B.blocks[bi]["s"]:
+                    rv = st.get("rv") or {}
+                    if rv.get("k") == "use" and isinstance(st.get("lhs"), int) and st["lhs"] not in copies:
+                        o = rv["op"]
+                        src = o.get("cp", o.get("mv"))
+                        if isinstance(src, int) and src in copies:
+                            copies.add(st["lhs"])
+                            ch = True
+        sites = [bi for bi in sorted(B.reach) if not B.blocks[bi]["c"] and
+                 any(st.get("lhs") == 0 and (st.get("rv") or {}).get("k") == "use" and
+                     isinstance((st["rv"]["op"].get("cp", st["rv"]["op"].get("mv"))), int) and
+                     st["rv"]["op"].get("cp", st["rv"]["op"].get("mv")) in copies for st in B.blocks[bi]["s"])]
+        n += 1
+        if not sites:
+            ctx.ob(rule, "%s:%s" % (rule, fid), True, "%s: never returns one of its argument handles" % fid, nontrivial=False)
+            continue
+        # allowed only if every such site is dominated by mem::forget of a clone (reference count incremented)
+        forgets = [bi for bi in B.reach if (B.blocks[bi].get("t") or {}).get("k") == "call" and
+                   (cfg.callee_name(B.blocks[bi]["t"]) or "").endswith("mem::forget")]
+        clones = [bi for bi in B.reach if (B.blocks[bi].get("t") or {}).get("k") == "call" and
+                  re.search(r"Clone>?::clone$", cfg.callee_name(B.blocks[bi]["t"]) or "")]
+        # the reference-taking entry points (`*_ref`): every path to the return passes the clone + forget, except the
+        # null-handle path of the manager variants (nothing to own)
+        is_ref = fid.endswith("_ref")
+        ok = is_ref and bool(forgets) and bool(clones) and all(
+            all(any(B.dominates(c_, f_) for c_ in clones) for f_ in forgets) and
+            (any(B.dominates(f_, s) for f_ in forgets) or
+             any((cfg.callee_name(B.blocks[b2]["t"]) or "").endswith("is_null") for b2 in B.reach
+                 if (B.blocks[b2].get("t") or {}).get("k") == "call"))
+            for s in sites)
+        ctx.ob(rule, "%s:%s" % (rule, fid), ok,
+               "%s (%s): %s" % (fid, F.where(fid),
+                                "returns its argument handle after taking an extra reference (clone + forget)" if ok else
+                                "returns one of its argument handles without taking a reference of its own: the caller "
+                                "will unref both the argument and the result, releasing one reference twice"))
+    return n
